@@ -187,6 +187,20 @@ def case_population(B, cfg):
         if set(ya) != {key}:
             return
         args = ya[key]
+        # the error-model scale of this individual: coefficient of the noise
+        # variable that does not occur inside the prediction
+        inner = set(T.variables(list(args)))
+        noise = [n for n in c06.eps_of(v) if n not in inner]
+        # the measurement noise is drawn after the individual's parameters
+        noise = sorted(noise, key=rng.order.index)[-1:]
+        B.fact('%s: one measurement-noise variable' % label, len(noise) == 1,
+               repr(noise))
+        if len(noise) != 1:
+            return
+        scale = Sym(T.diff(v.t, T.var(noise[0])))
+        B.eq('%s: affine in the measurement noise' % label,
+             Sym(T.diff(scale.t, T.var(noise[0]))), 0)
+        args = tuple(args) + (scale.t,)
         if sid in psis:
             B.fact('%s: same individual at every time' % label,
                    all(a is b for a, b in zip(args, psis[sid])))
@@ -202,8 +216,6 @@ def case_population(B, cfg):
             k, nd = u['kind'], u['n_dim']
             thm, beta = per_dim[q]
             for j in range(nd):
-                if d >= n_mech:
-                    break
                 a = Sym(args[d])
                 label = 'individual %d, dim %d (%s)' % (sid, d, k)
                 mu = thm[0][j] if not ps.is_delta(k) or k == 'pooled' \
